@@ -75,8 +75,10 @@ def run_case(case, rng):
         for k_ in sib.R:
             sib.R[k_] = abs(sib.R[k_]) * 20.0 + 50.0
         sib_pomdp = Bd.build_pomdp(sib, explicit=True)
-        case.call("PBVI.plan_on(sibling first)", pbvi.plan_on, sib_pomdp, facts=facts)
-        case.count("planner_reused")
+        sar2 = np.array(sib_pomdp.state_action_reward_matrix)
+        if horizon is not None or eps < sar2.max() - sar2.min():        # the same precondition as for the judged problem
+            case.call("PBVI.plan_on(sibling first)", pbvi.plan_on, sib_pomdp, facts=facts)
+            case.count("planner_reused")
     with wrap(pbvi_mod, "point_based_value_iteration", after=after) as w:
         res = case.call("PBVI.plan_on", pbvi.plan_on, pomdp, facts=facts)
     case.count("pbvi_calls")
@@ -154,6 +156,21 @@ def run_case(case, rng):
                     want = float(b @ M.Qmdp[:, ai])
                     case.check(abs(float(av) - want) <= qtol, "qmdp-action-value!=belief-weighted-MDP-action-value",
                                lambda: f"b={b.tolist()} a={a!r}: {float(av)!r} vs {want!r}", **facts)
+            # the same belief as a Belief whose states are listed in another order, and as support only
+            perm = list(range(len(S)))
+            rng.shuffle(perm)
+            alt = [Belief(tuple(S[i] for i in perm), tuple(float(b[i]) for i in perm))]
+            supp = [i for i in range(len(S)) if b[i] > 0]
+            if supp:
+                alt.append(Belief(tuple(S[i] for i in supp), tuple(float(b[i]) for i in supp)))
+            for bel2 in alt:
+                for ai, a in enumerate(A):
+                    av2 = case.call("qmdp.policy.action_value(reordered belief)", qm.policy.action_value, bel2, a, facts=facts)
+                    case.count("qmdp_reordered_beliefs_checked")
+                    if av2 is not case.FAIL:
+                        want = float(b @ M.Qmdp[:, ai])
+                        case.check(abs(float(av2) - want) <= qtol, "qmdp-action-value-depends-on-how-the-belief-lists-its-states",
+                                   lambda: f"belief {bel2!r} a={a!r}: {float(av2)!r} vs {want!r}", **facts)
             if special == "full":
                 vstar = float((b @ M.Qmdp).max())
                 qv2 = qm.policy.value(bel)
